@@ -18,6 +18,8 @@ InitModel(cfg) ==
       cfgsize  |-> Opt(cfg.driver, "size", 4000),
       extended |-> Opt(cfg.driver, "extended", 1) = 1,
       kind     |-> cfg.driver.kind,
+      host     |-> Opt(cfg.driver, "host", <<>>),                \* host / TCP port the path string denotes (C15), when the scenario states them
+      port     |-> Opt(cfg.driver, "port", 0),
       ident    |-> Opt(cfg.target, "identity", [none |-> 1]),
       clock    |-> Opt(cfg.target, "clock_b", Zeros(8)),
       hasclock |-> Has(cfg.target, "clock_b"),
@@ -356,7 +358,9 @@ Step(m, ev) ==
                           !.inClose = ev.api \in {"close", "exit"}, !.closeFault = FALSE,
                           !.lx = LxCall(m.lx, ev)])
       [] ev.k = "socknew" -> Good(m)
-      [] ev.k = "connect" -> Good(m)
+      [] ev.k = "connect" -> IF m.host # <<>> /\ ev.host # MkS(m.host) THEN Bad(m, "C15:host")
+                             ELSE IF m.port # 0 /\ ev.port # m.port THEN Bad(m, "C15:port")
+                             ELSE Good(m)
       [] ev.k = "sockclose" -> Good([m EXCEPT !.sessions = {}, !.dHandle = <<>>, !.pend = NoPend])
       [] ev.k = "fault" -> Good([m EXCEPT !.alive = IF ev.kind = "eof" THEN FALSE ELSE @, !.closeFault = TRUE, !.everFault = TRUE])
       [] ev.k = "noreply" -> IF m.pend.kind = "none" THEN Good(m)
